@@ -9,12 +9,13 @@ open ZodbModel ZodbModel.Undo
 
 /-- `loadSerial` walks through the records of newer transactions -/
 theorem loadSerial_newer (s oid : Nat) (newer rest : Log) (hInv : Inv (newer ++ rest))
-    (hn : ∀ t ∈ newer, s < t.tid) :
+    (hn : ∀ t ∈ newer, s < t.tid) (hnp : ∀ t ∈ newer, t.packed = false) :
     loadSerial (flat (newer ++ rest)) oid s = loadSerial (flat rest) oid s := by
   induction newer with
   | nil => rfl
   | cons t newer ih =>
-    have ih := ih hInv.2.2 (fun x hx => hn x (List.mem_cons_of_mem _ hx))
+    have ih := ih hInv.2.2.2 (fun x hx => hn x (List.mem_cons_of_mem _ hx))
+      (fun x hx => hnp x (List.mem_cons_of_mem _ hx))
     rw [← ih]
     simp only [List.cons_append, flat]
     unfold loadSerial
@@ -23,7 +24,7 @@ theorem loadSerial_newer (s oid : Nat) (newer rest : Log) (hInv : Inv (newer ++ 
     have := hInv.1 n hn'
     refine ⟨?_, ?_⟩
     · rw [this.1]; exact hn t List.mem_cons_self
-    · rw [← ho]; exact this.2.1
+    · rw [← ho]; exact this.2.1 (hnp t List.mem_cons_self)
 
 theorem flat_cons (T : Txn) (older : Log) : flat (T :: older) = T.recs ++ flat older := rfl
 
@@ -33,7 +34,7 @@ theorem flat_split (newer : Log) (T : Txn) (older : Log) :
 
 /-- facts about the newest record `r` of `oid` in transaction `T` of a well-formed log -/
 theorem newest_ctx {newer : Log} {T : Txn} {older : Log} (hInv : Inv (newer ++ T :: older))
-    {oid : Nat} {r : Rec} {k : Nat} (h : newestFor oid T.recs = some (r, k)) :
+    (hp : T.packed = false) {oid : Nat} {r : Rec} {k : Nat} (h : newestFor oid T.recs = some (r, k)) :
     r ∈ T.recs ∧ r.oid = oid ∧ r.tid = T.tid ∧ r.prev = lastPos oid (flat older) ∧
     lastPos oid (flat (T :: older)) = (flat older).length + k + 1 ∧
     dataAt (flat (newer ++ T :: older)) ((flat older).length + k + 1) = dataOf (flat (T :: older)) oid ∧
@@ -43,7 +44,7 @@ theorem newest_ctx {newer : Log} {T : Txn} {older : Log} (hInv : Inv (newer ++ T
   obtain ⟨hr, ho, hl, hat⟩ := newestFor_some h (flat older)
   have hrec := (Inv_suffix hInv).1 r hr
   have hle := (recAt_le_length hat).2
-  have hprev : r.prev = lastPos oid (flat older) := by rw [← ho]; exact hrec.2.1
+  have hprev : r.prev = lastPos oid (flat older) := by rw [← ho]; exact hrec.2.1 hp
   have hd1 : dataAt (flat (newer ++ T :: older)) ((flat older).length + k + 1)
       = dataOf (flat (T :: older)) oid := by
     rw [flat_split, dataAt, loadBack_append_le _ _ _ hle, dataOf_eq, flat_cons, hl]
@@ -51,7 +52,8 @@ theorem newest_ctx {newer : Log} {T : Txn} {older : Log} (hInv : Inv (newer ++ T
   · have : flat (newer ++ T :: older) = (flat newer ++ T.recs) ++ flat older := by
       rw [flat_split, List.append_assoc]
     rw [this, dataAt, hprev, loadBack_append_le _ _ _ (lastPos_le oid (flat older)), dataOf_eq]
-  · rw [hrec.1, loadSerial_newer T.tid oid newer (T :: older) hInv (Inv_newer_tid hInv)]
+  · rw [hrec.1, loadSerial_newer T.tid oid newer (T :: older) hInv (Inv_newer_tid hInv)
+      (Inv_newer_unpacked hInv hp)]
     unfold loadSerial
     rw [flat_cons, hl, chaseSerial_hit hat hrec.1, flat_split, dataAt, dataAt,
       loadBack_append_le _ _ _ hle]
@@ -65,12 +67,12 @@ theorem staged_back_le {utid : Nat} {F S : List Rec} (hS : StagedOK utid F S) :
 
 /-- `_transactionalUndoRecord` on the newest record of `oid` in `T` = the property's verdict -/
 theorem undoRecord_ctx (resolve : Resolver) {newer : Log} {T : Txn} {older : Log}
-    (hInv : Inv (newer ++ T :: older)) {utid : Nat} {S : List Rec}
+    (hInv : Inv (newer ++ T :: older)) (hp : T.packed = false) {utid : Nat} {S : List Rec}
     (hS : StagedOK utid (flat (newer ++ T :: older)) S)
     {oid : Nat} {r : Rec} {k : Nat} (h : newestFor oid T.recs = some (r, k)) :
     undoRecord resolve S (flat (newer ++ T :: older)) r ((flat older).length + k + 1)
       = verdictPayload r (verdictFor resolve (S ++ flat (newer ++ T :: older)) T older oid) := by
-  obtain ⟨_, ho, _, _, hl, hd1, hd2, hd3⟩ := newest_ctx hInv h
+  obtain ⟨_, ho, _, _, hl, hd1, hd2, hd3⟩ := newest_ctx hInv hp h
   rw [undoRecord_eq_spec resolve S _ r _ (staged_back_le hS) (Inv_BackOK hInv) (by rw [ho]; exact hd3)]
   unfold verdictFor
   rw [ho, hd1, hd2, hl]
@@ -80,7 +82,7 @@ theorem verdictPayload_eq_none {r : Rec} {v : Verdict} : verdictPayload r v = no
 
 /-- which oids fail in one undo call: exactly those of `T` whose verdict is `refuse` -/
 theorem undoLoop_fail_iff (resolve : Resolver) {newer : Log} {T : Txn} {older : Log}
-    (hInv : Inv (newer ++ T :: older)) {utid : Nat} {S : List Rec}
+    (hInv : Inv (newer ++ T :: older)) (hp : T.packed = false) {utid : Nat} {S : List Rec}
     (hS : StagedOK utid (flat (newer ++ T :: older)) S) (oid : Nat) :
     oid ∈ (undoLoop resolve S (flat (newer ++ T :: older)) utid (flat older).length T.recs).2 ↔
       (oid ∈ T.oids ∧
@@ -99,7 +101,7 @@ theorem undoLoop_fail_iff (resolve : Resolver) {newer : Log} {T : Txn} {older : 
     obtain ⟨r, k⟩ := x
     have hspec := (undoLoop_spec resolve S (flat (newer ++ T :: older)) utid (flat older).length oid
       T.recs r k hn).1
-    rw [hspec, undoRecord_ctx resolve hInv hS hn, verdictPayload_eq_none]
+    rw [hspec, undoRecord_ctx resolve hInv hp hS hn, verdictPayload_eq_none]
     have hr := newestFor_some hn []
     constructor
     · exact fun hv => ⟨List.mem_map.2 ⟨r, hr.1, hr.2.1⟩, hv⟩
@@ -107,20 +109,20 @@ theorem undoLoop_fail_iff (resolve : Resolver) {newer : Log} {T : Txn} {older : 
 
 /-- the records one undo call stages are well formed -/
 theorem undoLoop_staged (resolve : Resolver) {newer : Log} {T : Txn} {older : Log}
-    (hInv : Inv (newer ++ T :: older)) (utid : Nat) (S : List Rec) :
+    (hInv : Inv (newer ++ T :: older)) (hp : T.packed = false) (utid : Nat) (S : List Rec) :
     StagedOK utid (flat (newer ++ T :: older))
       (undoLoop resolve S (flat (newer ++ T :: older)) utid (flat older).length T.recs).1 := by
   intro x hx
   obtain ⟨h1, h2, r, hr, pos, _, hu⟩ := undoLoop_mem resolve S _ utid _ T.recs x hx
-  refine ⟨h1, h2, ?_⟩
+  refine ⟨h1, fun _ => h2, ?_⟩
   have hrec := (Inv_suffix hInv).1 r hr
   have hlen : (flat older).length ≤ (flat (newer ++ T :: older)).length := by
     rw [flat_split]; simp only [List.length_append]; omega
-  rcases undoRecord_payload resolve S _ r pos x.pl hu with hp | hp | ⟨m, hm, hp⟩
-  · rw [hp]; show r.prev ≤ _
-    rw [hrec.2.1]; have := lastPos_le r.oid (flat older); omega
-  · rw [hp]; show 0 ≤ _; omega
-  · rw [hp]; exact hm
+  rcases undoRecord_payload resolve S _ r pos x.pl hu with hq | hq | ⟨m, hm, hq⟩
+  · rw [hq]; show r.prev ≤ _
+    rw [hrec.2.1 hp]; have := lastPos_le r.oid (flat older); omega
+  · rw [hq]; show 0 ≤ _; omega
+  · rw [hq]; exact hm
 
 /-- reading the current data of an oid whose newest record in the view is `x` -/
 theorem dataOf_find {A F : List Rec} (hA : ∀ a ∈ A, ∀ b, a.pl = .back b → b ≤ F.length)
@@ -152,7 +154,7 @@ theorem load_find {A F : List Rec} {oid : Nat} {x : Rec}
 
 /-- the state of an object of `T` after one successful undo call: what `verdictFor` says -/
 theorem undoLoop_data (resolve : Resolver) {newer : Log} {T : Txn} {older : Log}
-    (hInv : Inv (newer ++ T :: older)) {utid : Nat} {S : List Rec}
+    (hInv : Inv (newer ++ T :: older)) (hp : T.packed = false) {utid : Nat} {S : List Rec}
     (hS : StagedOK utid (flat (newer ++ T :: older)) S) {oid : Nat} (ho : oid ∈ T.oids) :
     let F := flat (newer ++ T :: older)
     let N := (undoLoop resolve S F utid (flat older).length T.recs).1
@@ -162,10 +164,10 @@ theorem undoLoop_data (resolve : Resolver) {newer : Log} {T : Txn} {older : Log}
     | .merge m => m ≠ [] → dataOf (N ++ S ++ F) oid = some m := by
   intro F N
   obtain ⟨r, k, hn⟩ := newestFor_isSome_of_mem ho
-  have hctx := newest_ctx hInv hn
-  have hrec := undoRecord_ctx resolve hInv hS hn
+  have hctx := newest_ctx hInv hp hn
+  have hrec := undoRecord_ctx resolve hInv hp hS hn
   have hfind := (undoLoop_spec resolve S F utid (flat older).length oid T.recs r k hn).2
-  have hN := undoLoop_staged resolve hInv utid S
+  have hN := undoLoop_staged resolve hInv hp utid S
   have hNS : StagedOK utid F (N ++ S) := by
     intro x hx
     rcases List.mem_append.1 hx with hx | hx
